@@ -424,7 +424,7 @@ func run() int {
 		if tier == 1 {
 			opts.Solver.Timeout = 60 * time.Second
 			opts.Solver.Cross = true
-			dl = 40 * time.Minute
+			dl = 60 * time.Minute
 		}
 		if *flagSolverTO != 0 {
 			opts.Solver.Timeout = *flagSolverTO
